@@ -106,6 +106,8 @@ def handoff(idx):
             if isinstance(a, ast.Starred):
                 v = _resolve_local(lib.inline_locals(a.value, rp.node), rp.node)
                 if not isinstance(v, (ast.Tuple, ast.List)):
+                    v = _expand_over_table(idx, rp, v) or v
+                if not isinstance(v, (ast.Tuple, ast.List)):
                     raise AnalysisError('raw_parse: starred argument `%s` of MathExpression(...) is not a known tuple' % short(a))
                 flat.extend(v.elts)
             else:
@@ -165,6 +167,27 @@ def _resolve_local(e, fn, depth=0):
     if len(defs) != 1 or defs[0] is None:
         return e
     return _resolve_local(defs[0], fn, depth + 1) if isinstance(defs[0], ast.Name) else defs[0]
+
+
+def _expand_over_table(idx, fi, e):
+    """tuple(f(x) for x in <literal table>) / [f(x) for x in <literal table>] as an explicit tuple display (the table may be
+    a class-level attribute); getattr(obj, 'name') is folded to obj.name.  None if not of that shape."""
+    if isinstance(e, ast.Call) and isinstance(e.func, ast.Name) and e.func.id in ('tuple', 'list') and len(e.args) == 1:
+        e = e.args[0]
+    if not isinstance(e, (ast.GeneratorExp, ast.ListComp)) or len(e.generators) != 1:
+        return None
+    gen = e.generators[0]
+    if gen.ifs or not isinstance(gen.target, ast.Name):
+        return None
+    table = C03._literal_table(idx, fi, gen.iter, lib.local_env(fi.node))
+    if table is None:
+        return None
+    fold = C03._Fold()
+    elts = [fold.visit(nf.subst(e.elt, {gen.target.id: row})) for row in table.elts]
+    out = ast.Tuple(elts=elts, ctx=ast.Load())
+    ast.copy_location(out, e)
+    ast.fix_missing_locations(out)
+    return out
 
 
 def _alias_source(e):
@@ -688,7 +711,7 @@ def d3_fresh(ctx, idx, st):
         cls = idx.cls(MP)
         for f in wanted:
             aliased = any(not cp for a, cp, c, n in hand.get(f, []))
-            binds = _field_binds(rs.node, f)
+            binds = _field_binds(rs.node, f, idx, rs)
             muts = [n for n in walk_own(rs.node) if isinstance(n, ast.Call) and isinstance(n.func, ast.Attribute)
                     and n.func.attr in SET_MUTATORS and isinstance(n.func.value, ast.Attribute) and n.func.value.attr == f
                     and isinstance(n.func.value.value, ast.Name) and n.func.value.value.id == me]
@@ -746,12 +769,12 @@ def d3_fresh(ctx, idx, st):
         # the constructor starts from empty sets, too
         init = idx.func(MP + '.__init__')
         for f in wanted:
-            binds = _field_binds(init.node, f)
+            binds = _field_binds(init.node, f, idx, init)
             construct = 'MathParser.__init__: self.%s' % f
             if not binds:
                 via = [c for c in lib.calls_named(init.node, 'reset_storage') if isinstance(c.func, ast.Attribute)
                        and isinstance(c.func.value, ast.Name) and c.func.value.id == init.params[0]]
-                if via and _field_binds(rs.node, f):
+                if via and _field_binds(rs.node, f, idx, rs):
                     r.ok(construct, 'starts empty (through reset_storage)', lib.loc(init, via[0]))
                 else:
                     r.undecided(construct, 'no initialisation of self.%s found in __init__' % f, init.loc)
@@ -784,10 +807,19 @@ def _only_field_stores(fi):
     return True
 
 
-def _field_binds(fn, field):
-    """[(statement, value)] for `self.<field> = value` (also element-wise in tuple assignments), in source order."""
+def _field_binds(fn, field, idx=None, fi=None):
+    """[(statement, value)] for `self.<field> = value` (also element-wise in tuple assignments, as setattr(self, '<field>', v),
+    and inside loops over a literal table of field names, which are unrolled), in source order."""
     out = []
-    for n in walk_own(fn):
+    extra = []
+    if idx is not None and fi is not None:
+        for st_ in C03._unrolled_rows(fn, idx, fi):
+            extra.extend(ast.walk(st_))
+    for n in list(walk_own(fn)) + extra:
+        if isinstance(n, ast.Call) and isinstance(n.func, ast.Name) and n.func.id == 'setattr' and len(n.args) == 3 \
+                and isinstance(n.args[1], ast.Constant) and n.args[1].value == field:
+            out.append((n, n.args[2]))
+            continue
         if not isinstance(n, ast.Assign):
             continue
         for t in n.targets:
@@ -1186,7 +1218,7 @@ def _state_passed_to_mutators(idx, ms, fi, me, init_only_closures=False):
 
 
 def d5_consumers(ctx, idx, st):
-    r = ctx.rule('D5.WMW', 'no site of the package mutates the usage sets or the tree of a (cached) expression', floor=14)
+    r = ctx.rule('D5.WMW', 'no site of the package mutates the usage sets or the tree of a (cached) expression', floor=10)
     with r:
         # fields of MathExpression are written only in __init__
         ci = idx.cls(ME)
@@ -1724,5 +1756,13 @@ BENIGN = [
         ("    def parse(self, expression):", "    def _parse_uncached(self, expression, stripped):\n        try:\n            return self.raw_parse(stripped)\n"
          "        except ParseException:\n            msg = \"Invalid Input: Could not parse '{}' as a formula\"\n            raise UnableToParse(msg.format(expression))\n\n"
          "    def parse(self, expression):"),
+    ], None),
+    Benign('scratch-sets-declared-in-a-class-tuple', EXPR, [
+        ("    def reset_storage(self):\n        self.variables_used = set()\n        self.functions_used = set()\n        self.suffixes_used = set()\n",
+         "    _usage_fields = ('variables_used', 'functions_used', 'suffixes_used')\n\n    def reset_storage(self):\n"
+         "        for field in self._usage_fields:\n            setattr(self, field, set())\n"),
+        ("            parsed = MathExpression(expression,\n                                    tree,\n                                    self.variables_used,\n"
+         "                                    self.functions_used,\n                                    self.suffixes_used)\n",
+         "            parsed = MathExpression(expression, tree, *tuple(getattr(self, field) for field in self._usage_fields))\n"),
     ], None),
 ]
